@@ -380,6 +380,10 @@ def run(prog, rep, tier):
              'truncate(), or handles the default value at once (explicit store / raise)')
     if check_option_defaults(prog, rep) < 6:
         raise AnalysisError('OPTION-default-first: fewer than 6 readers of truncation options')
+    rep.rule('TRUNC-norm-version', 'a spectrum is not modified in place between taking its norm and '
+             'dividing by it')
+    if check_norm_version(prog, rep) < 1:
+        raise AnalysisError('TRUNC-norm-version: normalisations of eigh_rho / svd_theta not found')
     rep.floor('TRUNC-combine', 5)
     rep.floor('TRUNC-mask-shape', 5)
     rep.assumptions += ['numerical statements about spectra are NOT decided']
@@ -882,4 +886,47 @@ def check_option_defaults(prog, rep):
                                   'Config.get stores a missing default: truncate() called later '
                                   'with the same parameters finds %s instead of its own default %s'
                                   % (key_text(c)[:60], d, key, d, defaults[key]), c.lineno)
+    return n
+
+
+# ------------------------------------------------------------------ TRUNC-norm-version
+def check_norm_version(prog, rep):
+    """TRUNC-norm-version: `R = np.sum(X)` / `np.linalg.norm(X)` followed by `X = X / R` normalises
+    X only if X is not modified in between. An in-place clamp (`X[X < eps] = 0`) between the two
+    removes weight that R still contains: the normalised spectrum no longer sums to one, and the
+    removed weight is neither kept nor reported (eigh_rho on a density matrix of small scale)."""
+    m = prog.module('tenpy/linalg/truncation.py')
+    n = 0
+    for q in ('eigh_rho', 'svd_theta', '_eig_based_svd'):
+        if q not in m.functions:
+            continue
+        f = m.func(q)
+        sts = list(stmts_of(f))
+        for st in sts:
+            if not (isinstance(st, ast.Assign) and len(st.targets) == 1 and isinstance(
+                    st.targets[0], ast.Name) and isinstance(st.value, ast.Call) and
+                    unparse(st.value.func) in ('np.sum', 'np.linalg.norm') and st.value.args and
+                    isinstance(st.value.args[0], ast.Name)):
+                continue
+            R, X = st.targets[0].id, st.value.args[0].id
+            div = [d for d in sts if isinstance(d, ast.Assign) and d.lineno > st.lineno and
+                   isinstance(d.value, ast.BinOp) and isinstance(d.value.op, ast.Div) and
+                   unparse(d.value.left) == X and unparse(d.value.right) == R]
+            if not div:
+                continue
+            n += 1
+            d = div[0]
+            between = [s for s in sts if st.lineno < s.lineno < d.lineno and isinstance(
+                s, (ast.Assign, ast.AugAssign)) and any(
+                    isinstance(t, ast.Subscript) and unparse(t.value) == X
+                    for t in (s.targets if isinstance(s, ast.Assign) else [s.target]))]
+            rep.instance('TRUNC-norm-version', {'function': q, 'norm': key_text(st)[:50],
+                                                'normalisation': key_text(d)[:50],
+                                                'modified_in_between': bool(between)})
+            for s in between:
+                rep.violation('TRUNC-norm-version', m, q, 'modified-between:' + X,
+                              '`%s` changes %s in place between `%s` and `%s`: the norm still '
+                              'contains the removed weight, the normalised values do not sum to '
+                              'one and the difference is not reported as truncation error'
+                              % (key_text(s)[:40], X, key_text(st)[:40], key_text(d)[:40]), s.lineno)
     return n
